@@ -74,7 +74,11 @@ type c16Case struct {
 	// but no PWM map, "curve+corrupt-map" / "curve+wrong-shape-map" a stored RPM curve and an unreadable PWM map entry.
 	// With a stored curve the start-up goes straight to the PWM-map sweep, which is an analysis like any other.
 	Priors []string `json:"priors,omitempty"`
+	// CfgMap: per fan, a pwmMap given in the fan's configuration entry (no sweep, but the RPM curve is still measured)
+	CfgMap []bool `json:"cfgMap,omitempty"`
 }
+
+func (c *c16Case) cfgMap(i int) bool { return i < len(c.CfgMap) && c.CfgMap[i] }
 
 func (c *c16Case) prior(i int) string {
 	if i < len(c.Priors) {
@@ -166,6 +170,13 @@ func runC16(ctx *Ctx, c *c16Case) (intervals []c16Interval, ok bool) {
 		if c.kind(i) == "file" {
 			fcfg = configuration.FanConfig{ID: id, Curve: curve.Id, File: &configuration.FileFanConfig{Path: pwm, RpmPath: rpm}}
 		}
+		if c.cfgMap(i) {
+			m := map[int]int{}
+			for k := 0; k <= 255; k++ {
+				m[k] = k
+			}
+			fcfg.PwmMap = &m
+		}
 		fan, _ := fans.NewFan(fcfg)
 		if pr := c.prior(i); pr != "" {
 			data := map[int]float64{}
@@ -220,7 +231,7 @@ func runC16(ctx *Ctx, c *c16Case) (intervals []c16Interval, ok bool) {
 		mu.Lock()
 		finished := 0
 		for i := 0; i < n; i++ {
-			mapOnly := c.kind(i) == "file" || c.prior(i) != "" // the analysis ends with the stored PWM map
+			mapOnly := (c.kind(i) == "file" || c.prior(i) != "") && !c.cfgMap(i) // the analysis ends with the stored PWM map
 			if _, ok := sp.saved[ids[i]]; ok && !mapOnly {
 				finished++
 			}
@@ -294,7 +305,12 @@ func genC16(r *rand.Rand) *c16Case {
 		c.DelaysMs = append(c.DelaysMs, pick(r, 0, 0, 5, 20, 60, r.Intn(150)))
 		c.Kinds = append(c.Kinds, pick(r, "hwmon", "hwmon", "file"))
 	}
-	if r.Intn(3) == 0 {
+	if r.Intn(4) == 0 {
+		// some hwmon fans carry a pwmMap in their configuration entry
+		for i := 0; i < n; i++ {
+			c.CfgMap = append(c.CfgMap, c.Kinds[i] == "hwmon" && r.Intn(3) > 0)
+		}
+	} else if r.Intn(3) == 0 {
 		for i := 0; i < n; i++ {
 			c.Priors = append(c.Priors, pick(r, "", "curve", "curve+corrupt-map", "curve+corrupt-map", "curve+wrong-shape-map"))
 		}
@@ -304,7 +320,7 @@ func genC16(r *rand.Rand) *c16Case {
 
 func init() {
 	register("C16", func(ctx *Ctx) {
-		n := ctx.N(32, 400)
+		n := ctx.N(48, 600)
 		for i := 0; i < n && !ctx.Abort; i++ {
 			c := genC16(ctx.Rng)
 			ctx.LogCase(map[string]interface{}{"class": "process-died-during-analysis", "case": c})
@@ -317,6 +333,9 @@ func init() {
 			ctx.Eval(1)
 			cnt, desc := c16Overlaps(iv)
 			class := fmt.Sprintf("fans=%d:viaRun=%v:fileFans=%d", len(c.Levels), c.ViaRun, strings.Count(strings.Join(c.Kinds, ","), "file"))
+			if len(c.CfgMap) > 0 {
+				class += fmt.Sprintf(":configuredPwmMap=%d", strings.Count(fmt.Sprint(c.CfgMap), "true"))
+			}
 			if c.hasPriors() {
 				stored, unreadable := 0, 0
 				for _, pr := range c.Priors {
